@@ -178,6 +178,7 @@ func c01(run *ev.Run, tier string) {
 	var mu sync.Mutex
 	perFormat := map[string]int64{}
 	crossPairs := int64(0)
+	rebuilt := int64(0)
 	comp := map[string]int64{}
 	useCLI := tier == "thorough"
 	parallel(n, 8, func(i int) {
@@ -271,6 +272,26 @@ func c01(run *ev.Run, tier string) {
 			}
 			sigs[f] = sg
 		}
+		// a second build in the same process after the sources changed in place
+		// must ship the new bytes (nothing may be cached per source path)
+		if i%3 == 0 && mutateSources(c, 3) > 0 {
+			mu.Lock()
+			rebuilt++
+			mu.Unlock()
+			for _, f := range formats {
+				res := buildYAML(y, f)
+				if res.Err != nil || res.Panic != "" {
+					run.Violate("C01/"+f+"/rebuild-error", map[string]any{"case": i, "error": fmt.Sprint(res.Err, ev.Short(res.Panic, 300))})
+					continue
+				}
+				pkg := dec.Decode(f, res.Bytes, false)
+				if len(pkg.Errs) > 0 {
+					run.Violate("C01/"+f+"/undecodable", map[string]any{"case": i, "errors": pkg.Errs})
+					continue
+				}
+				comparePayload(run, "C01", c, f, pkg, c.Plan(f), &lst)
+			}
+		}
 		// the same configuration yields the same logical tree in all formats
 		if len(c.Spec.Overrides) == 0 {
 			fs := make([]string, 0, len(sigs))
@@ -311,6 +332,7 @@ func c01(run *ev.Run, tier string) {
 	run.Set("source_bytes_hashed", st.bytesHashed)
 	run.Set("entries_decoded_per_format", perFormat)
 	run.Set("cross_format_pairs_compared", crossPairs)
+	run.Set("cases_rebuilt_after_source_change", rebuilt)
 	run.Set("compression_settings_seen", comp)
 	run.Set("external_decoders", map[string]bool{"xz_cli_crosscheck": useCLI && have("xz")})
 	run.Assume("the harness decoders (raw tar walker, ar, gzip member splitter, rpm header + cpio newc parser, klauspost zstd decoder, ulikunitz xz/lzma decoders) read the formats correctly")
